@@ -2,6 +2,9 @@ import DimodModel.Fix
 import DimodModel.PyHist
 import DimodModel.PolyH
 import DimodModel.EnergyVars
+import DimodModel.AsSamplesForms
+import DimodModel.EnergyGen
+import DimodModel.PyRelabel
 import DimodModel.Wire
 open Wire En
 
@@ -177,6 +180,20 @@ def parseSL (kind : String) (args : List String) : Option (SL Rat) :=
   | "ss", [rows, labels] => do pure (.sampleset (← parseRows rows) (← parseLabels labels))
   | _, _ => none
 
+
+/-- `kind args / kind args / …` → the elements of an iterator of samples-likes (round 7) -/
+def parseSLs (toks : List String) : Option (List (SL Rat)) :=
+  let groups := toks.foldr (fun t acc => if t = "/" then [] :: acc else match acc with
+    | g :: gs => (t :: g) :: gs
+    | [] => [[t]]) [[]]
+  (groups.filter (!·.isEmpty)).mapM fun g => match g with
+    | kind :: args => parseSL kind args
+    | [] => none
+
+def showIntRows (rows : List (List Int)) : String :=
+  if rows.isEmpty then "-" else
+  String.intercalate ";" (rows.map fun r => if r.isEmpty then "." else String.intercalate "," (r.map toString))
+
 def showSamples (r : Except Err (List (List Rat) × List Label)) : String :=
   match r with
   | .ok (rows, labels) => s!"ok {showRows rows} {showLabels labels}"
@@ -244,6 +261,12 @@ def lbStep (d : LBqm Rat) (view : VT) (old : Bool) (op : List String) : LBqm Rat
     | some v, some a => if view = d.vt then lbExc d (d.fixVariable v a) else bad | _, _ => bad
   | ["relabel", o, n] => match parseLabel? o, parseLabel? n with
     | some o, some n => if view = d.vt then lbFin d (d.relabelOne o n, none) else bad | _, _ => bad
+  -- round 7: `relabel_variables(mapping)` as a whole (the model splits the mapping itself); mapping = old>new,old>new
+  | ["relabelmap", mp] =>
+      match (splitTok mp ",").mapM (fun kv => match kv.splitOn ">" with
+        | [a, b] => do pure ((← parseLabel? a), (← parseLabel? b)) | _ => none) with
+      | some mapping => if view = d.vt then lbExc d (d.relabelVariables mapping) else bad
+      | none => bad
   | ["order"] => (d, "ok " ++ showOrder d)
   | ["getoff"] => (d, "ok " ++ showRat (View.offset T view d))
   | ["getlin", v] => match parseLabel? v with
@@ -348,6 +371,28 @@ def step (d : LBqm Rat) (line : String) : LBqm Rat × String :=
   | ["dqm", cl, ca, st, va, off, ml, rows, sl] => pure1 (dqmRun false cl ca st va off ml rows sl)
   | ["dqm_old", cl, ca, st, va, off, ml, rows, sl] => pure1 (dqmRun true cl ca st va off ml rows sl)
   | "assamples" :: kind :: args => pure1 do pure (showSamples (asSamples (← parseSL kind args)))
+  -- round 7: any iterator of samples-likes (elements separated by `/`), with the number of elements the iterator object has left
+  | "assamplesiter" :: toks => pure1 do
+      let l ← parseSLs toks
+      let r := asSamplesIterState l
+      pure s!"{showSamples (asSamplesF (.iterOf l))} left={r.2.length}"
+  | ["assamplesml", items, labels] => pure1 do
+      pure (showSamples (asSamplesF (.mappingLabels (← parseItems items) (← parseLabels labels))))
+  | ["samplearray", rows] => pure1 do
+      pure (match sampleArrayInt (← parseIntRows rows) with
+        | .ok (w, out) => s!"ok int{w} {showIntRows out}"
+        | .error e => "err " ++ showErr e)
+  | ["saferelabels", labels, mp] => pure1 do
+      let ls ← parseLabels labels
+      let mapping ← (splitTok mp ",").mapM (fun kv => match kv.splitOn ">" with
+        | [a, b] => do pure ((← parseLabel? a), (← parseLabel? b)) | _ => none)
+      pure (match (LBqm.variablesOf ls).safeRelabels mapping with
+        | none => "err value"
+        | some subs => "ok " ++ String.intercalate "|" (subs.map fun sub =>
+            if sub.isEmpty then "." else String.intercalate "," (sub.map fun p => s!"{showLabel p.1}>{showLabel p.2}")))
+  | ["energygen", l, a, o, x] => pure1 do
+      let m ← parseQMB l a o; let x ← parseRats x
+      pure s!"{showRat (m.energyGen (xOf x))} {showRat (m.cyEnergyGen (xOf x))}"
   | "assamples_old" :: kind :: args => pure1 do pure (showSamples (asSamplesOld (← parseSL kind args)))
   | "slvalue" :: r :: v :: kind :: args => pure1 do
       let sl ← parseSL kind args
